@@ -320,7 +320,26 @@ async fn run(plan: MergePlan, root: &std::path::Path) -> Value {
         );
     }
     if a.commit != b.commit {
-        o.violate("C36", "merge_changed_outcome", json!({"what": "commit", "burst": a.commit, "sequential": b.commit, "bursts": plan.bursts}));
+        // attribution facts (KF19): a request with a lower leader_commit queued, in one burst and one term, behind a
+        // request with a higher one (a delayed duplicate behind a newer heartbeat); the merge rule takes the maximum
+        let mut lower_behind_higher = false;
+        let mut s0 = 0usize;
+        for bl in &plan.bursts {
+            let grp = &plan.reqs[s0..s0 + *bl];
+            for j in 1..grp.len() {
+                if grp[..j].iter().any(|p| p.term == grp[j].term && p.commit > grp[j].commit) {
+                    lower_behind_higher = true;
+                }
+            }
+            s0 += *bl;
+        }
+        o.violate(
+            "C36",
+            "merge_changed_outcome",
+            json!({"what": "commit", "burst": a.commit, "sequential": b.commit, "bursts": plan.bursts,
+                   "merged_commit_higher": a.commit > b.commit,
+                   "lower_leader_commit_queued_behind_higher_in_one_burst": lower_behind_higher}),
+        );
     }
     if a.applied != b.applied {
         // not part of C36 (log, commit index, acknowledgements): seen when a duplicated prev(0,0) request resets the
